@@ -112,6 +112,10 @@ func NewMultiEndpoint(b *MultiEndpointOptions) (MultiEndpoint, error) {
 		switchingDelay:  b.SwitchingDelay,
 		current:         b.Endpoints[0],
 	}
+	// Recovery timers scheduled by newEndpoint capture me and may fire before the
+	// constructor returns: build the endpoints map under the lock.
+	me.Lock()
+	defer me.Unlock()
 	eMap := make(map[string]*endpoint)
 	for i, e := range b.Endpoints {
 		eMap[e] = me.newEndpoint(e, i)
